@@ -20,6 +20,7 @@ import (
 	"runtime"
 	"sort"
 	"sync"
+	"sync/atomic"
 	"time"
 
 	"github.com/miekg/dns"
@@ -33,7 +34,7 @@ var (
 )
 
 type batchDesc struct {
-	Phase string `json:"phase"` // aging | admission | boundary | live | burst
+	Phase string `json:"phase"` // aging | admission | boundary | live | burst | transition
 	Seed  int64  `json:"seed"`
 	Lazy  bool   `json:"lazy"`
 	N     int    `json:"n"`
@@ -48,18 +49,22 @@ func lazyTag(l bool) string {
 	return ""
 }
 
+// reportsFiled counts report() calls that filed a violation (rep.Violations() counts distinct keys only).
+var reportsFiled atomic.Int64
+
 // report files a violation under a small, stable key (kind x reply class x lazy).
 func report(kind string, spec msgSpec, lazy bool, b batchDesc, detail string, extra map[string]any) {
 	if kind == "wrong-entry" || len(kind) > 8 && kind[:8] == "harness-" {
 		rep.Inconclusive("%s in %s batch %d: %s", kind, b.Phase, b.Idx, detail)
 		return
 	}
+	reportsFiled.Add(1)
 	c := map[string]any{"batch": b, "reply": spec}
 	for k, v := range extra {
 		c[k] = v
 	}
 	key := kind + "-" + spec.class() + lazyTag(lazy)
-	if spec.class() == "rcode-other" {
+	if spec.class() == "rcode-other" || kind == "reload-not-applied" {
 		key = kind + lazyTag(lazy)
 	}
 	rep.Violation(key, detail, c)
@@ -74,6 +79,7 @@ var stats struct {
 	maxAgeServed   int64 // largest whole-second age subtracted on an accepted hit
 	expectedHits   int64
 	unexpectedMiss int64
+	trExample      map[string]any // one written-out chain of the transition workload
 }
 
 func init() { stats.minHitBefore, stats.minGoneAfter = 1<<62, 1<<62 }
@@ -770,7 +776,7 @@ type burstQ struct {
 
 func runBurst(b batchDesc) (violated bool) {
 	caselog.Log(b)
-	before := rep.Violations()
+	before := reportsFiled.Load()
 	rng := rand.New(rand.NewSource(b.Seed))
 	if b.Procs > 0 {
 		runtime.GOMAXPROCS(b.Procs)
@@ -972,7 +978,7 @@ func runBurst(b batchDesc) (violated bool) {
 			rep.Sample(map[string]any{"phase": "burst", "gomaxprocs": b.Procs, "burst_question": q, "refreshes_started": started, "max_in_flight": maxIn, "refreshes_done": done, "query_after_refresh": r})
 		}
 	}
-	return rep.Violations() > before
+	return reportsFiled.Load() > before
 }
 
 // ============================ driver ============================
@@ -989,6 +995,8 @@ func runBatch(b batchDesc) {
 		runLive(b)
 	case "burst":
 		runBurst(b)
+	case "transition":
+		runTransition(b)
 	default:
 		rep.Inconclusive("unknown phase %q", b.Phase)
 	}
@@ -1001,11 +1009,16 @@ func main() {
 		"aging = generated storable replies (TTL mix from {0,1,2,5,29..31,299..301,2^31,2^32-1,...} over the three sections, rcodes NOERROR/NXDOMAIN/SERVFAIL, with/without OPT) injected with every boundary age (0,1,L/2,L-1,L,L+1, each record TTL +-1, entry expiry +-1, random; up to 136 years) and probed twice; " +
 		"admission = replies with rcode 0..23, TC on/off, zero TTLs, stored through Exec, then /dump and a second Exec; " +
 		"boundary = entries expiring at the next whole seconds probed continuously across the expiry instant; live = replies stored through Exec and probed until they expire; " +
-		"burst = 2..64 concurrent queries on a stale entry while the refresh is blocked in the upstream. lazy_cache_ttl off/on everywhere. " +
+		"burst = 2..64 concurrent queries on a stale entry while the refresh is blocked in the upstream; " +
+		"transition = one question answered / refreshed / re-stored again and again with answers of changing kind (positive long, short, tiny TTLs; NXDOMAIN; SERVFAIL; empty NOERROR; answers that are not stored: other rcode, TC, zero TTL, no answer, failure), " +
+		"delivered by foreground misses, by gated background refreshes and by /load_dump into the running cache (same answer with its times moved into the past = shorter lifetime, or another answer with an earlier or later expiry), " +
+		"each followed by: which entry is served next, with which TTLs, does the re-stored entry expire at its NEW time (waited out in real time), how many refreshes start. lazy_cache_ttl off/on everywhere. " +
 		"One case = one judged Exec (or one dumped entry); non-trivial = the call was answered from the cache (fresh or stale) or was refused/expired by a rule of the statement; distinct = workload x reply shape x lazy x age/instant class x outcome x seconds subtracted")
 	rep.Assume("the wall clock does not step during a run (mosdns compares time.Now() with Unix-second expiries; each call is bracketed by wall-clock readings widened by 2 us)")
 	rep.Assume("entries injected through /load_dump with stored/msg-expiry/entry-expiry = (now-age, stored+lifetime, stored+entry lifetime) are states the store path itself produces, shifted in time")
 	rep.Assume("remaining lifetime is per record; the zero-TTL rule applies to NOERROR replies; a NOERROR reply without any record has no smallest TTL and may or may not be stored (<= 300 s)")
+	rep.Assume("a background refresh has completed once a successor refresh of the same question reaches the upstream (the statement's at-most-one-in-flight rule); a refresh that answered with a storable kind (NOERROR with TTL > 0, NXDOMAIN, SERVFAIL) has then updated the entry; a refresh whose answer is not stored leaves the stale entry in place")
+	rep.Assume("/load_dump into a running cache replaces the entry of a key that is already cached, whatever the two expiries (this is how the transition workload moves an entry in time and re-stores a key with a shorter lifetime); a tree where the loaded entry is dropped or keeps the old expiry is reported under the separate key reload-not-applied")
 	rep.Assume("a cache miss where a hit was possible is allowed by the statement (counted; > 1 % makes the run inconclusive)")
 
 	if rep.ReplayFile != "" {
@@ -1054,7 +1067,31 @@ func main() {
 		bursts = append(bursts, batchDesc{Phase: "burst", Seed: rng.Int63(), Lazy: true, Procs: []int{1, 2, 16}[i%3], Idx: i})
 	}
 
+	// transition batches mostly wait (for refreshes, for shortened lifetimes to run out): own workers
+	var trans []batchDesc
+	for i := 0; i < rep.Pick(12, 160); i++ {
+		trans = append(trans, batchDesc{Phase: "transition", Seed: rng.Int63(), Lazy: i%3 != 2, N: 40, Idx: i})
+	}
+
 	var wg sync.WaitGroup
+	twork := make(chan batchDesc)
+	for w := 0; w < 12; w++ {
+		wg.Add(1)
+		go func() {
+			defer wg.Done()
+			for b := range twork {
+				runBatch(b)
+			}
+		}()
+	}
+	wg.Add(1)
+	go func() {
+		defer wg.Done()
+		for _, b := range trans {
+			twork <- b
+		}
+		close(twork)
+	}()
 	work := make(chan batchDesc)
 	for w := 0; w < 8; w++ {
 		wg.Add(1)
@@ -1083,9 +1120,13 @@ func main() {
 	close(work)
 	wg.Wait()
 
+	violatedBursts := 0
 	for _, b := range bursts {
-		if runBurst(b) && rep.Violations() > 6 {
-			break
+		if runBurst(b) {
+			// a violated burst has waited out its 3 s patience (several times): three witnesses are enough
+			if violatedBursts++; violatedBursts >= 3 || rep.Violations() > 6 {
+				break
+			}
 		}
 	}
 	runtime.GOMAXPROCS(16)
@@ -1101,6 +1142,9 @@ func main() {
 	}
 	rep.Extra("probes_where_only_a_hit_was_the_cached_outcome", stats.expectedHits)
 	rep.Extra("of_which_missed", stats.unexpectedMiss)
+	if stats.trExample != nil {
+		rep.Extra("transition_example_chain", stats.trExample)
+	}
 	exp, miss, hb, ga := stats.expectedHits, stats.unexpectedMiss, stats.minHitBefore, stats.minGoneAfter
 	stats.mu.Unlock()
 
@@ -1126,6 +1170,16 @@ func main() {
 		need("live:stale", "no live entry served stale")
 		need("burst:questions_with_exactly_one_refresh_in_flight", "no burst with a refresh in flight")
 		need("burst:refreshed_reply_served_with_fresh_ttls", "no refreshed reply observed")
+		need("transition:refreshed_entry_served_to_next_query", "no refreshed entry observed by the transition workload")
+		need("transition:refresh_applied:noerror>nxdomain", "no positive answer refreshed into NXDOMAIN")
+		need("transition:refresh_applied:noerror>servfail", "no positive answer refreshed into SERVFAIL")
+		need("transition:refresh_applied:noerror>empty-noerror", "no positive answer refreshed into an empty NOERROR")
+		need("transition:refresh_applied:noerror>noerror", "no positive answer refreshed into another positive answer")
+		need("transition:refreshes_of_answers_that_went_stale_in_real_time(no_reload_involved)", "no refresh of an answer that went stale in real time")
+		need("transition:refreshes_with_an_answer_that_is_not_stored", "no refresh with an answer that is not stored")
+		need("transition:re-stores_with_earlier_entry_expiry", "no entry re-stored with an earlier expiry")
+		need("transition:reloaded_with_shorter_lifetime_gone_at_new_expiry", "no re-stored entry seen expiring at its new time")
+		need("transition:fresh_hits_aged_by_reloaded_times", "no re-stored entry served with TTLs aged by its new times")
 		if exp == 0 || miss*100 > exp {
 			rep.Inconclusive("%d of %d probes that could only be answered from the cache were misses (> 1 %%): the aging oracle would be vacuous", miss, exp)
 		}
